@@ -44,6 +44,8 @@ def attribute(ev, cl, tags, trace):
     kind = trace.get("kind", "")
     if kind == "userfcn":
         return {"C17"}
+    if kind == "edge":
+        return {"C05"} if op == "EFill" else {"C13"}
     if kind == "expr" and op in FILL_OPS + ("Pickle", "New"):
         # aggregators whose quantities are string expressions / their equivalent functions: what they aggregate
         # is C17's claim (and C11's for the pickle clone)
@@ -209,6 +211,9 @@ def write_replay(pid, finding):
         "sharing": tr.get("sharing", False),
         "kind": tr.get("kind", ""),
         "ops": tr.get("ops"),
+        "cfg": tr.get("cfg"),
+        "events_before": [{k: v for k, v in e.items() if k not in ("ch", "post")} for e in tr["events"][max(0, finding.l - 6):finding.l - 1]]
+        if tr.get("kind") == "edge" else None,
         "failing_event": finding.l,
         "clauses": finding.clauses,
         "event": tr["events"][finding.l - 1],
